@@ -17,6 +17,15 @@ Path(start, rel, lines) ==
                        [m |-> m2, v |-> Append(acc.v, <<m2.pos["X"], m2.pos["Y"], m2.pos["Z"]>>)]
   IN FoldLeft(step, [m |-> m0, v |-> <<start>>], lines).v
 OnlyMoves(lines) == \A i \in DOMAIN lines : GC(lines[i].ws) = 10
+\* a toolpath of plain and absolute-bypass moves and mode context managers (C11): mode lines are executed, only motion
+\* lines contribute a vertex
+MotionPath(start, rel, lines) ==
+  LET m0 == [InitMachine EXCEPT !.pos = [X |-> start[1], Y |-> start[2], Z |-> start[3]],
+                                !.known = [a \in AxisSet |-> TRUE], !.rel = rel]
+      step(acc, ln) == LET m2 == ExecLine(acc.m, ln.ws) IN
+                       [m |-> m2, v |-> IF GC(ln.ws) \in {0, 10} THEN Append(acc.v, <<m2.pos["X"], m2.pos["Y"], m2.pos["Z"]>>) ELSE acc.v]
+  IN FoldLeft(step, [m |-> m0, v |-> <<start>>], lines).v
+MovesAndModes(lines) == \A i \in DOMAIN lines : GC(lines[i].ws) \in {0, 10, 900, 910}
 
 Circular == {"arc", "arc_radius", "circle", "thread"}
 Angular  == Circular \cup {"helix", "spiral"}
@@ -89,7 +98,7 @@ C10_Controls(e, V) ==
   e.shape = "spline" => Visit(V, e.controls, 1, (e.res + 3) * (e.res + 3))
 \* polylines visit exactly the given points
 C10_Points(e, V) ==
-  e.shape = "polyline" => (Len(V) = Len(e.controls) + 1 /\ \A i \in DOMAIN e.controls : Near3(V[i + 1], e.controls[i], 1))
+  e.shape \in {"polyline", "mixed"} => (Len(V) = Len(e.controls) + 1 /\ \A i \in DOMAIN e.controls : Near3(V[i + 1], e.controls[i], 1))
 
 \* --------------------------------------------------------------------------- C11
 \* the same logical toolpath in relative and absolute mode: vertex by vertex, up to one rounding per relative move
@@ -99,13 +108,16 @@ C11_Same(VA, VR) ==
 
 \* --------------------------------------------------------------------------- C12
 ConstSpeed == {"arc", "arc_radius", "circle"}
+\* ... and a helix whose end radius is its start radius (recorder flag `cr`): "constant-radius helix" in the property text
+IsConst(e) == e.shape \in ConstSpeed \/ (e.shape = "helix" /\ e.cr)
 Seg2(V, i) == Dist3sq(V[i], V[i + 1])
 \* no segment longer than about one resolution; interior segments at least about 0.9 resolutions
-C12_Long(e, V)  == e.shape \in ConstSpeed => \A i \in 1..(Len(V) - 1) : Seg2(V, i) * 10000 <= (105 * e.res + 300) * (105 * e.res + 300)
-C12_Short(e, V) == (e.shape \in ConstSpeed /\ e.r >= e.res) =>
-                      \A i \in 2..(Len(V) - 2) : Seg2(V, i) * 10000 >= (85 * e.res - 300) * (85 * e.res - 300)
+\* (the bound is divided instead of the segment multiplied: a far too long segment must be a verdict, not an overflow)
+C12_Long(e, V)  == IsConst(e) => \A i \in 1..(Len(V) - 1) : Seg2(V, i) <= ((105 * e.res + 300) * (105 * e.res + 300)) \div 10000 + 1
+C12_Short(e, V) == (IsConst(e) /\ e.r >= e.res) =>
+                      \A i \in 2..(Len(V) - 2) : Seg2(V, i) + 1 >= ((85 * e.res - 300) * (85 * e.res - 300)) \div 10000
 \* segment count proportional to path length / resolution (1/1.11 .. 1/0.85, two end segments allowed)
-C12_Count(e, V) == (e.shape \in ConstSpeed /\ e.r >= e.res /\ e.len >= 3 * e.res) =>
+C12_Count(e, V) == (IsConst(e) /\ e.r >= e.res /\ e.len >= 3 * e.res) =>
                       /\ (Len(V) - 1) * e.res * 85 <= (e.len + 2 * e.res) * 100 + 200 * e.res
                       /\ (Len(V) - 1) * e.res * 111 >= (e.len - 2 * e.res) * 100 - 200 * e.res
 \* halving the resolution never yields fewer segments
